@@ -29,7 +29,7 @@ func init() {
 }
 
 var litPool = []string{"v1", "a", "b", "books", "x", "shelves", "é", "a-b", "a.b", "x1", "name", "v", "ab", "é日", "日é", "users", "users-archive", "v1.beta"}
-var segPool = []string{"x", "y1", "42", "a", "é", "books", "v1", "null", "-7", "a=b", "x~y", "b", "shelves", "Z", "0", "12345", "a.b", "x1", "日本", "é日", "日é", "aé日b", "4294967295", "4294967296", "4294967297", "2147483647", "2147483648", "-2147483648", "-2147483649", "007", "1e3", "1.0",
+var segPool = []string{"x", "y1", "42", "a", "é", "books", "v1", "null", "-7", "a=b", "x~y", "b", "shelves", "Z", "0", "12345", "a.b", "x1", "日本", "é日", "日é", "aé日b", "4294967295", "4294967296", "4294967297", "2147483647", "2147483648", "-2147483648", "-2147483649", "007", "1e3", "1.0", "010", "0x10", "0b11", "0o17", "1_000", "+5", "9223372036854775807", "9223372036854775808", "-9223372036854775808", "-9223372036854775809",
 	// every character larking documents as valid in a path segment
 	"a;b", "a,b", "a@b", "a!b", "a$b", "a&b", "a'b", "(a)", "a*b", "a+b", "a=b;c", ";", "~"}
 var verbPool = []string{"read", "cancel", "x", "watch"}
@@ -79,7 +79,7 @@ func genTmpl(c *Ctx) ttmpl {
 		default:
 			f := fieldNames[c.Rng.Intn(len(fieldNames))]
 			if c.Rng.Intn(4) > 0 { // mostly string-typed
-				f = []string{"name", "other_name", "nested.s", "nested.child.s", "rs", "otherName", "u32", "i32"}[c.Rng.Intn(8)]
+				f = []string{"name", "other_name", "nested.s", "nested.child.s", "rs", "otherName", "u32", "i32", "i64", "s64"}[c.Rng.Intn(10)]
 			}
 			t.segs = append(t.segs, tseg{kind: sVar, field: f, sub: genSub(c)})
 		}
@@ -217,7 +217,7 @@ func genPaths(c *Ctx, rules []rrule, n int) []string {
 
 // normalise captured int text the way the implementation reports it
 func normCap(field, text string) string {
-	if fi, ok := routeFields[field]; ok && (fi.kind == "I" || fi.kind == "U") {
+	if fi, ok := routeFields[field]; ok && (fi.kind == "I" || fi.kind == "U" || fi.kind == "L") {
 		if text == "null" {
 			return "0"
 		}
@@ -252,7 +252,7 @@ func normModelRoute(ans string) string {
 	var caps []string
 	for _, cp := range strings.Split(parts[2], ";") {
 		id, hx, _ := strings.Cut(cp, "=")
-		if f, ok := idToField[id]; ok && (routeFields[f].kind == "I" || routeFields[f].kind == "U") {
+		if f, ok := idToField[id]; ok && (routeFields[f].kind == "I" || routeFields[f].kind == "U" || routeFields[f].kind == "L") {
 			var b []byte
 			fmt.Sscanf(hx, "%x", &b)
 			hx = hexS(normCap(f, string(b)))
@@ -273,6 +273,12 @@ func convertible(field, text string) bool {
 		}
 		n, err := strconv.ParseInt(text, 10, 32)
 		_ = n
+		return err == nil && !strings.HasPrefix(text, "+") && (text == "0" || text == "-0" || !strings.HasPrefix(strings.TrimPrefix(text, "-"), "0"))
+	case "L":
+		if text == "null" {
+			return true
+		}
+		_, err := strconv.ParseInt(text, 10, 64)
 		return err == nil && !strings.HasPrefix(text, "+") && (text == "0" || text == "-0" || !strings.HasPrefix(strings.TrimPrefix(text, "-"), "0"))
 	case "U":
 		if text == "null" {
